@@ -53,7 +53,7 @@ def match_known(pid, shrunk_ops):
     return None
 
 
-def proof_part(pid):
+def proof_part(pid, tier="quick"):
     """returns (obligations, discharged, problems[list of str], theorem names)"""
     problems = []
     hits = core.grep_forbidden()
@@ -72,7 +72,23 @@ def proof_part(pid):
             discharged += 1
     if rc != 0 and thms:
         problems.append("Audit.lean did not elaborate: " + out[-800:])
+    if tier == "thorough" and thms:
+        # independent re-check of the compiled proofs of this property's modules by leanchecker
+        import glob, re as _re
+        mods = []
+        for f in sorted(glob.glob(os.path.join(core.LEAN, "BGV", "Props", "*.lean"))):
+            if _re.search(r"^theorem\s+%s_" % pid, open(f).read(), _re.M):
+                mods.append("BGV.Props." + os.path.basename(f)[:-5])
+        with core.lean_lock():
+            for mod in mods:
+                rc2, out2 = core.sh(["lake", "env", "leanchecker", mod], cwd=core.LEAN, timeout=1800)
+                if rc2 != 0:
+                    problems.append(f"leanchecker rejected {mod}: " + out2[-400:])
+        LEANCHECKED[:] = mods
     return len(thms), discharged, problems, thms
+
+
+LEANCHECKED = []
 
 
 def replay_text(pid, kind, fail, shrunk, note=""):
@@ -116,7 +132,7 @@ def main():
     thms = []
     try:
         core.build_lean()
-        obligations, discharged, proof_problems, thms = proof_part(pid)
+        obligations, discharged, proof_problems, thms = proof_part(pid, tier)
     except core.BuildError as e:
         proof_problems.append(f"{e.what} failed:\n{e.output[-3000:]}")
     if proof_problems:
@@ -200,7 +216,8 @@ def main():
     level = "proof" if obligations > 0 else "exploration"
     cov.update({
         "obligations": obligations, "discharged": discharged,
-        "checker_cmd": "cd /verif/lean && lake build BGV && lake env lean Audit.lean   (#print axioms on: " + ", ".join(thms) + ")",
+        "checker_cmd": "cd /verif/lean && lake build BGV && lake env lean Audit.lean   (#print axioms on: " + ", ".join(thms) + ")"
+                       + ("; lake env leanchecker " + " ".join(LEANCHECKED) if LEANCHECKED else ""),
         "trusted_base": TRUSTED_BASE,
         "traces_validated_against_impl": stats.evaluations,
         "rule": "histories from vlib/props.py (exhaustive small scopes + seeded random, corpus first); distinct = sha1 of the op list; "
